@@ -419,7 +419,7 @@ Lemma latest_of_render c s l : keys_in s -> cache_in c -> (forall e, In e l -> I
 Proof.
   intros KI CI H. unfold latest_of, slatest_of. destruct l as [|e0 l0]; simpl map; auto.
   rewrite <- (map_cons render_ent), filter_latest_render by auto.
-  destruct (sfilter_latest (e0 :: l0) 1) as [|e r] eqn:F; simpl; auto.
+  destruct (sfilter_latest (e0 :: l0) 1) as [|e r] eqn:F; unfold sent in *; rewrite ?F; simpl; auto.
   unfold e_dir, e_name. simpl.
   destruct (load_latest_render c s (fst e)) as [E CI']; auto.
   { apply H. apply (sfilter_latest_in _ 1). rewrite F. simpl; auto. }
@@ -433,6 +433,227 @@ Proof.
   intros KI CI H. unfold recent_of, srecent_of. destruct l as [|e0 l0]; simpl map; auto.
   rewrite <- (map_cons render_ent), filter_latest_render by auto.
   apply load_all_render; auto. intros e He. apply H. eapply sfilter_latest_in; eauto.
+Qed.
+
+
+(* ---- operations ----------------------------------------------------------------------------------------- *)
+(* K is closed under the compaction twin and under re-keying to the DAGs of D (decidable) *)
+Definition closedb : bool :=
+  forallb (fun k => existsb (skey_eqb (twin k)) K && forallb (fun d' => existsb (skey_eqb (rekey d' k)) K) D) K.
+Hypothesis KC : closedb = true.
+Lemma existsb_skey k : existsb (skey_eqb k) K = true -> In k K.
+Proof. intros H. apply existsb_exists in H. destruct H as [x [I E]]. apply skey_eqb_eq in E. subst. auto. Qed.
+Lemma twin_in k : In k K -> In (twin k) K.
+Proof.
+  intros H. unfold closedb in KC. rewrite forallb_forall in KC. specialize (KC k H). apply andb_prop in KC.
+  destruct KC as [A _]. apply existsb_skey; auto.
+Qed.
+Lemma rekey_in k d' : In k K -> In d' D -> In (rekey d' k) K.
+Proof.
+  intros H H'. unfold closedb in KC. rewrite forallb_forall in KC. specialize (KC k H). apply andb_prop in KC.
+  destruct KC as [_ A]. rewrite forallb_forall in A. apply existsb_skey; auto.
+Qed.
+
+Definition op_in (o : op) : Prop :=
+  match o with
+  | OOpen d stamp req _ => In d D /\ In (mkkey d stamp (trunc8 req) false) K
+  | OWrite _ _ _ | OClose _ => True
+  | OUpdate d _ _ _ _ => In d D
+  | ORename d d' => In d D /\ In d' D
+  | ORemoveOld d _ => In d D
+  | OTouch d stamp r8 c _ => In (mkkey d stamp r8 c) K
+  end.
+Definition wr_in (w : option swriter) : Prop :=
+  match w with
+  | Some w => In (sw_key w) K /\ k_c (sw_key w) = false /\ match sw_fd w with Some k => In k K | None => True end
+  | None => True
+  end.
+Definition state_in (h : sstate) : Prop :=
+  keys_in (sst h) /\ dirs_nodup (sst h) /\ cache_in (scch h) /\ wr_in (swr h).
+
+Lemma skey_eqb_sym a b : skey_eqb a b = skey_eqb b a.
+Proof.
+  destruct (skey_eqb a b) eqn:E.
+  - apply skey_eqb_eq in E. subst. symmetry. apply skey_eqb_refl.
+  - destruct (skey_eqb b a) eqn:E2; auto. apply skey_eqb_eq in E2. subst. rewrite skey_eqb_refl in E. discriminate.
+Qed.
+
+Lemma sfind_in_key l req k p : sfind_in rpath l req = SFFound k p -> exists e, In e l /\ fst e = k.
+Proof.
+  unfold sfind_in. destruct (String.eqb req ""); [discriminate|].
+  destruct (filter _ _) as [|e r] eqn:F; [discriminate|].
+  destruct (parse (snd e)); [|discriminate]. intros H. inversion H; subst.
+  assert (I : In e (e :: r)) by (simpl; auto). rewrite <- F in I. apply filter_In in I. destruct I as [I _].
+  apply in_rev in I. eapply Permutation_in in I; [|apply isort_perm]. eauto.
+Qed.
+
+Lemma q_find_render s d req : keys_in s -> dirs_nodup s -> In d D ->
+  q_find loc dirhash (render_fs s) d req = render_fres (sq_find rname rpath s d req).
+Proof.
+  intros KI N H. unfold q_find, sq_find.
+  change (pat_all d) with (pat_of d PAll). fold (rdir d). rewrite glob_render; simpl; auto. apply find_in_render.
+Qed.
+Lemma sq_find_key s d req k p : keys_in s -> sq_find rname rpath s d req = SFFound k p -> In k K /\ k_dag k = d.
+Proof.
+  intros [KI _] H. apply sfind_in_key in H. destruct H as [e [I E]]. apply sglob_in in I. destruct I as [I [Ed _]]. subst. auto.
+Qed.
+
+Lemma fname_rekey k d' : replace1 (rname k) (prefix_of (k_dag k)) (prefix_of d') = rname (rekey d' k).
+Proof. unfold rname, fname. simpl. apply replace1_prefix. Qed.
+
+Lemma sprims_in o h : state_in h -> op_in o -> Forall prim_in (sprims rname rpath o h).
+Proof.
+  intros [KI [N [CI WI]]] P. destruct o; simpl in *.
+  - destruct P. repeat constructor; auto.
+  - destruct (swr h) as [w|]; [|constructor]. destruct WI as [_ [_ W]]. destruct (sw_fd w); [|constructor].
+    apply Forall_forall. intros x Hx. apply in_map_iff in Hx. destruct Hx as [c [E _]]. subst. simpl. auto.
+  - destruct (swr h) as [w|]; [|constructor]. destruct WI as [W [_ _]].
+    destruct (sget (sst h) (sw_key w)); [|constructor]. destruct (parse f); [|constructor].
+    constructor. { simpl. apply nk_dag; auto. }
+    constructor. { simpl. apply twin_in; auto. }
+    apply Forall_app. split.
+    + apply Forall_forall. intros x Hx. apply in_map_iff in Hx. destruct Hx as [c [E _]]. subst. simpl. apply twin_in; auto.
+    + repeat constructor; auto.
+  - destruct (sq_find rname rpath (sst h) d req) as [|k p] eqn:F; [constructor|].
+    apply sq_find_key in F; auto. destruct F as [F _].
+    constructor. { simpl. apply nk_dag; auto. }
+    constructor. { simpl; auto. }
+    apply Forall_forall. intros x Hx. apply in_map_iff in Hx. destruct Hx as [c [E _]]. subst. simpl. auto.
+  - destruct P as [P1 P2]. destruct (shas_dir (sst h) d); [|constructor].
+    constructor; [simpl; auto|]. apply Forall_app. split; [|repeat constructor; auto].
+    apply Forall_forall. intros x Hx. apply in_map_iff in Hx. destruct Hx as [e [E I]]. subst. simpl.
+    apply sglob_in in I. destruct I as [I _]. destruct KI as [KI _]. split; auto. apply rekey_in; auto.
+  - apply Forall_forall. intros x Hx. apply in_map_iff in Hx. destruct Hx as [e [E I]]. subst. simpl.
+    apply filter_In in I. destruct I as [I _]. apply sglob_in in I. destruct I as [I _]. destruct KI as [KI _]. auto.
+  - repeat constructor; auto.
+Qed.
+
+Lemma prims_render o h : state_in h -> op_in o ->
+  prims loc dirhash o (render_state h) = map render_prim (sprims rname rpath o h).
+Proof.
+  intros [KI [N [CI WI]]] P. destruct o; simpl in *.
+  - reflexivity.
+  - destruct (swr h) as [w|]; simpl; auto. destruct (sw_fd w); simpl; auto. rewrite map_map. reflexivity.
+  - destruct (swr h) as [w|]; simpl; auto. destruct WI as [W [C _]].
+    rewrite get_render by auto. destruct (sget (sst h) (sw_key w)); simpl; auto. destruct (parse f); simpl; auto.
+    rewrite nk_twin by auto. rewrite map_app, map_map. reflexivity.
+  - rewrite q_find_render by auto. destruct (sq_find rname rpath (sst h) d req) as [|k p]; simpl; auto.
+    rewrite map_map. reflexivity.
+  - destruct P as [P1 P2]. fold (rdir d). rewrite has_dir_render by auto. destruct (shas_dir (sst h) d); simpl; auto.
+    change (pat_all d) with (pat_of d PAll). fold (rdir d). rewrite glob_render; simpl; auto.
+    f_equal. rewrite map_app, !map_map. f_equal. apply map_ext_in. intros e He. simpl.
+    unfold e_dir, e_name. simpl. apply sglob_in in He. destruct He as [_ [Ed _]]. rewrite <- Ed at 1. rewrite fname_rekey. reflexivity.
+  - unfold glob_list. change (pat_all d) with (pat_of d PAll). fold (rdir d). rewrite glob_render; simpl; auto.
+    rewrite filter_map_comm, !map_map. reflexivity.
+  - reflexivity.
+Qed.
+
+Lemma track_fd_render fd p : (match fd with Some k => In k K | None => True end) -> prim_in p ->
+  track_fd (option_map render_fd fd) (render_prim p) = option_map render_fd (strack_fd fd p)
+  /\ (match strack_fd fd p with Some k => In k K | None => True end).
+Proof.
+  intros F P. destruct fd as [k|]; simpl; [|destruct p; simpl; auto].
+  destruct p; simpl in *; auto.
+  - rewrite render_key_eqb by auto. rewrite skey_eqb_sym. destruct (skey_eqb k0 k); simpl; auto.
+  - destruct P as [P1 P2]. rewrite render_key_eqb by auto. rewrite (skey_eqb_sym k k0).
+    destruct (skey_eqb k0 k); simpl; auto.
+    rewrite render_key_eqb by auto. rewrite (skey_eqb_sym k k'). destruct (skey_eqb k' k); simpl; auto.
+Qed.
+Lemma track_fds_render ps : forall fd, (match fd with Some k => In k K | None => True end) -> Forall prim_in ps ->
+  fold_left track_fd (map render_prim ps) (option_map render_fd fd) = option_map render_fd (fold_left strack_fd ps fd)
+  /\ (match fold_left strack_fd ps fd with Some k => In k K | None => True end).
+Proof.
+  induction ps as [|p ps IH]; intros fd F P; simpl; auto.
+  inversion P; subst. destruct (track_fd_render fd p) as [E I]; auto. rewrite E. apply IH; auto.
+Qed.
+Lemma track_wr_render w ps : wr_in w -> Forall prim_in ps ->
+  track_wr (option_map render_wr w) (map render_prim ps) = option_map render_wr (strack_wr w ps) /\ wr_in (strack_wr w ps).
+Proof.
+  intros W P. destruct w as [w|]; simpl; auto. destruct W as [W1 [W2 W3]].
+  destruct (track_fds_render ps (sw_fd w)) as [E I]; auto. rewrite E. unfold render_wr. simpl. auto.
+Qed.
+
+Theorem apply_render o h : state_in h -> op_in o ->
+  apply loc dirhash (render_state h) o = render_state (sapply rname rpath h o) /\ state_in (sapply rname rpath h o).
+Proof.
+  intros SI P. pose proof (sprims_in o h SI P) as PI. pose proof (prims_render o h SI P) as PR.
+  destruct SI as [KI [N [CI WI]]].
+  destruct (run_prims_render (sprims rname rpath o h) (sst h) KI PI) as [RR KI'].
+  pose proof (dirs_nodup_run_sprims (sprims rname rpath o h) (sst h) N) as N'.
+  unfold apply, sapply. rewrite PR. simpl hfs. rewrite RR.
+  destruct o.
+  - simpl in P. destruct P as [P1 P2]. split; [reflexivity|]. repeat split; simpl; auto; try apply KI'.
+  - destruct (track_wr_render (swr h) (sprims rname rpath (OWrite tag size now) h) WI PI) as [E W']. simpl hwr. rewrite E.
+    split; [reflexivity|]. repeat split; simpl; auto; apply KI'.
+  - simpl hwr. destruct (swr h) as [w|] eqn:EW; simpl.
+    + destruct WI as [W1 [W2 W3]]. rewrite get_render by auto. destruct (sget (sst h) (sw_key w)).
+      * rewrite cache_del_render by auto. split; [reflexivity|]. repeat split; simpl; auto; try apply KI'. apply cache_in_del; auto.
+      * split; [reflexivity|]. repeat split; simpl; auto; apply KI'.
+    + split; [unfold render_state; simpl; rewrite EW; reflexivity|]. repeat split; simpl; auto; try apply KI; rewrite ?EW; simpl; auto.
+  - simpl in P. simpl hfs. rewrite q_find_render by auto.
+    destruct (sq_find rname rpath (sst h) d req) as [|k p] eqn:F; cbn [render_fres].
+    + split; [reflexivity|]. repeat split; simpl; auto; apply KI.
+    + destruct (sq_find_key _ _ _ _ _ KI F) as [Fk _].
+      destruct (track_wr_render (swr h) (sprims rname rpath (OUpdate d req tag size now) h) WI PI) as [E W'].
+      simpl hwr. rewrite E. simpl hcache. rewrite cache_del_render by auto.
+      split; [reflexivity|]. repeat split; simpl; auto; try apply KI'. apply cache_in_del; auto.
+  - destruct (track_wr_render (swr h) (sprims rname rpath (ORename d d') h) WI PI) as [E W']. simpl hwr. rewrite E.
+    split; [reflexivity|]. repeat split; simpl; auto; apply KI'.
+  - destruct (track_wr_render (swr h) (sprims rname rpath (ORemoveOld d cutoff) h) WI PI) as [E W']. simpl hwr. rewrite E.
+    split; [reflexivity|]. repeat split; simpl; auto; apply KI'.
+  - destruct (track_wr_render (swr h) (sprims rname rpath (OTouch d stamp r8 c t) h) WI PI) as [E W']. simpl hwr. rewrite E.
+    split; [reflexivity|]. repeat split; simpl; auto; apply KI'.
+Qed.
+
+
+Lemma q_latest_render c s d day : keys_in s -> dirs_nodup s -> cache_in c -> In d D -> pk_in (PLatest day) ->
+  q_latest loc dirhash (render_cache c) (render_fs s) d day
+  = (render_cache (fst (sq_latest rname c s d day)), snd (sq_latest rname c s d day)) /\ cache_in (fst (sq_latest rname c s d day)).
+Proof.
+  intros KI N CI H P. unfold q_latest, sq_latest.
+  change (pat_latest d day) with (pat_of d (PLatest day)). fold (rdir d). rewrite glob_render by auto.
+  apply latest_of_render; auto. intros e He. apply sglob_in in He. destruct He as [I _]. destruct KI as [KI _]. auto.
+Qed.
+Lemma q_recent_render c s d n : keys_in s -> dirs_nodup s -> cache_in c -> In d D ->
+  q_recent loc dirhash (render_cache c) (render_fs s) d n
+  = (render_cache (fst (sq_recent rname c s d n)), snd (sq_recent rname c s d n)) /\ cache_in (fst (sq_recent rname c s d n)).
+Proof.
+  intros KI N CI H. unfold q_recent, sq_recent.
+  change (pat_all d) with (pat_of d PAll). fold (rdir d). rewrite glob_render; simpl; auto.
+  apply recent_of_render; auto. intros e He. apply sglob_in in He. destruct He as [I _]. destruct KI as [KI _]. auto.
+Qed.
+
+Lemma state_in_init : state_in s_init.
+Proof.
+  unfold state_in, keys_in, dirs_nodup, cache_in. simpl. repeat split; try (intros ? []); auto. constructor.
+Qed.
+
+Theorem run_ops_render ops : forall h, state_in h -> Forall op_in ops ->
+  run_ops loc dirhash (render_state h) ops = render_state (srun_ops rname rpath h ops) /\ state_in (srun_ops rname rpath h ops).
+Proof.
+  induction ops as [|o ops IH]; intros h SI F; simpl; auto.
+  inversion F; subst. destruct (apply_render o h SI) as [E SI']; auto. rewrite E. apply IH; auto.
+Qed.
+
+(* ---- crash states ------------------------------------------------------------------------------------- *)
+Lemma torn_render p : torn (render_prim p) = map render_prim (storn p).
+Proof. destruct p; simpl; auto. destruct c; simpl; auto. Qed.
+Lemma storn_in p : prim_in p -> Forall prim_in (storn p).
+Proof. destruct p; simpl; try constructor. destruct c; simpl; repeat constructor; auto. Qed.
+Lemma crash_from_render ps : forall s, keys_in s -> Forall prim_in ps ->
+  crash_from (render_fs s) (map render_prim ps) = map render_fs (scrash_from s ps).
+Proof.
+  induction ps as [|p ps IH]; intros s KI F; simpl; auto.
+  inversion F; subst. f_equal. rewrite map_app. f_equal.
+  - rewrite torn_render, !map_map. apply map_ext_in. intros x Hx. apply run_prim_render; auto.
+    pose proof (storn_in p H1) as T. rewrite Forall_forall in T. auto.
+  - rewrite run_prim_render by auto. apply IH; auto. apply keys_in_run_sprim; auto.
+Qed.
+Theorem crash_states_render o h : state_in h -> op_in o ->
+  crash_states loc dirhash (render_state h) o = map render_fs (scrash_states rname rpath h o).
+Proof.
+  intros SI P. unfold crash_states, scrash_states. rewrite prims_render by auto.
+  simpl hfs. apply crash_from_render. { apply SI. } apply sprims_in; auto.
 Qed.
 
 End U.
